@@ -1281,6 +1281,9 @@ class SyncObj(object):
                             self.__transport.send(node, message)
                             if node not in self.__connectedNodes:
                                 break
+                        if node not in self.__connectedNodes:
+                            # (the break above only left the loop over the pieces)
+                            break
                     else:
                         message = {
                             'type': 'append_entries',
